@@ -139,11 +139,21 @@ def main():
     meta["confirmed"] = bool(ok)
     dst = os.path.join(HERE, "seeded", args.name)
     os.makedirs(dst, exist_ok=True)
-    shutil.copy(patch, os.path.join(dst, "patch.diff"))
-    shutil.copy(demo, os.path.join(dst, "demo.py"))
+    same = os.path.realpath(dst) == os.path.realpath(args.src)
+    old_meta = os.path.join(dst, "meta.json")
+    if "tests" not in meta and os.path.exists(old_meta):
+      prev = json.load(open(old_meta))          # keep the earlier test verdict
+      if "tests" in prev:
+        meta["tests"] = prev["tests"]
+        meta["tests"]["from_earlier_confirmation"] = prev.get("confirmed_at")
+        ok = ok and not prev["tests"].get("broken")
+        meta["confirmed"] = bool(ok)
     notes = os.path.join(args.src, "NOTES.md")
-    if os.path.exists(notes):
-      shutil.copy(notes, os.path.join(dst, "NOTES.md"))
+    if not same:
+      shutil.copy(patch, os.path.join(dst, "patch.diff"))
+      shutil.copy(demo, os.path.join(dst, "demo.py"))
+      if os.path.exists(notes):
+        shutil.copy(notes, os.path.join(dst, "NOTES.md"))
     with open(os.path.join(dst, "meta.json"), "w") as f:
       json.dump(meta, f, indent=1)
       f.write("\n")
